@@ -407,11 +407,26 @@ theorem firstMatchFrom_noMatch_iff (h : Hello) (ps : List Policy) (k : Nat) :
 
 /-! ### names, case folding -/
 
-theorem equalFold_iff (a b : Bytes) : equalFold a b = true ↔ lower a = lower b := by
+theorem equalFold_iff (a b : Bytes) : equalFold a b = true ↔ foldKey a = foldKey b := by
   simp [equalFold]
 
-theorem equalFold_false_iff (a b : Bytes) : equalFold a b = false ↔ lower a ≠ lower b := by
+theorem equalFold_false_iff (a b : Bytes) : equalFold a b = false ↔ foldKey a ≠ foldKey b := by
   simp [equalFold]
+
+theorem foldByte_ascii (b : UInt8) (h : b < 128) : foldByte b = lowerByte b := by
+  unfold foldByte
+  split
+  · rename_i e; subst e; exact absurd h (by decide)
+  · rfl
+
+/-- on ASCII names the two equivalences coincide -/
+theorem foldKey_ascii (s : Bytes) (h : isAscii s = true) : foldKey s = lower s := by
+  unfold isAscii at h
+  rw [List.all_eq_true] at h
+  unfold foldKey lower
+  apply List.map_congr_left
+  intro b hb
+  exact foldByte_ascii b (by simpa using h b hb)
 
 theorem matchWildcard_congr (s s' w : Bytes) (e : lower s = lower s') :
     matchWildcard s w = matchWildcard s' w := by
@@ -552,7 +567,11 @@ theorem lowerByte_eq_lbr (b : UInt8) (h : lowerByte b = cLbr) : b = cLbr := by
     have := congrArg UInt8.toNat h
     simp [UInt8.toNat_add] at this h1' h2'
     omega
-  · exact h
+  · split at h
+    · exact absurd h (by decide)
+    · split at h
+      · exact absurd h (by decide)
+      · exact h
 
 theorem lowerByte_eq_rbr (b : UInt8) (h : lowerByte b = cRbr) : b = cRbr := by
   unfold lowerByte cRbr at *
@@ -564,7 +583,23 @@ theorem lowerByte_eq_rbr (b : UInt8) (h : lowerByte b = cRbr) : b = cRbr := by
     have := congrArg UInt8.toNat h
     simp [UInt8.toNat_add] at this h1' h2'
     omega
-  · exact h
+  · split at h
+    · exact absurd h (by decide)
+    · split at h
+      · exact absurd h (by decide)
+      · exact h
+
+theorem foldByte_eq_lbr (b : UInt8) (h : foldByte b = cLbr) : b = cLbr := by
+  unfold foldByte at h
+  split at h
+  · exact absurd h (by decide)
+  · exact lowerByte_eq_lbr b h
+
+theorem foldByte_eq_rbr (b : UInt8) (h : foldByte b = cRbr) : b = cRbr := by
+  unfold foldByte at h
+  split at h
+  · exact absurd h (by decide)
+  · exact lowerByte_eq_rbr b h
 
 theorem trimPrefixByte_id (c : UInt8) (s : Bytes) (h : s.head? ≠ some c) : trimPrefixByte c s = s := by
   cases s with
@@ -593,13 +628,13 @@ theorem bracketTrimmed_shape (host : Bytes) (h : bracketTrimmed host = true) :
       · rw [trimPrefixByte_id cLbr host h1, trimSuffixByte_id cRbr host h2] at h
         simp at h
 
-theorem noBrackets_of_fold (sni host : Bytes) (e : lower sni = lower host)
+theorem noBrackets_of_fold (sni host : Bytes) (e : foldKey sni = foldKey host)
     (hb : cLbr ∈ host ∨ cRbr ∈ host) : noBrackets sni = false := by
-  have key : ∀ c : UInt8, (∀ b, lowerByte b = c → b = c) → lowerByte c = c → c ∈ host → c ∈ sni := by
+  have key : ∀ c : UInt8, (∀ b, foldByte b = c → b = c) → foldByte c = c → c ∈ host → c ∈ sni := by
     intro c hc hcc hm
-    have : c ∈ lower sni := by
-      rw [e]; unfold lower; exact List.mem_map.mpr ⟨c, hm, hcc⟩
-    unfold lower at this
+    have : c ∈ foldKey sni := by
+      rw [e]; unfold foldKey; exact List.mem_map.mpr ⟨c, hm, hcc⟩
+    unfold foldKey at this
     obtain ⟨b, hb1, hb2⟩ := List.mem_map.mp this
     rw [hc b hb2] at hb1; exact hb1
   cases hn : noBrackets sni with
@@ -609,7 +644,7 @@ theorem noBrackets_of_fold (sni host : Bytes) (e : lower sni = lower host)
     unfold noBrackets at hn
     rw [List.all_eq_true] at hn
     rcases hb with hb | hb
-    · have := hn _ (key cLbr lowerByte_eq_lbr (by decide) hb); simp at this
-    · have := hn _ (key cRbr lowerByte_eq_rbr (by decide) hb); simp at this
+    · have := hn _ (key cLbr foldByte_eq_lbr (by decide) hb); simp at this
+    · have := hn _ (key cRbr foldByte_eq_rbr (by decide) hb); simp at this
 
 end CaddyModel.C19
